@@ -55,8 +55,11 @@ type Pipe struct {
 	MSS        int
 	Latency    int64 // base latency ns
 	Jitter     int64
-	ShortRd    int  // probability (per 1000) that a Read returns fewer bytes than available
-	NoCoalesce bool // a Read never spans two segments
+	ShortRd    int   // probability (per 1000) that a Read returns fewer bytes than available
+	NoCoalesce bool  // a Read never spans two segments
+	FlipAt     int64 // stream offset whose byte gets FlipMask XORed in transit (-1 = none)
+	FlipMask   byte
+	Flipped    bool
 
 	Capture bool
 	cap     []byte
@@ -182,8 +185,8 @@ type NetCfg struct {
 // NewConnPair creates a connected pair (a,b). Bytes written to a are read
 // from b and vice versa. cfgAB applies to the a->b direction.
 func (s *Sim) NewConnPair(nameA, nameB string, cfgAB, cfgBA NetCfg) (*Conn, *Conn) {
-	ab := &Pipe{Name: nameA + ">" + nameB, s: s}
-	ba := &Pipe{Name: nameB + ">" + nameA, s: s}
+	ab := &Pipe{Name: nameA + ">" + nameB, s: s, FlipAt: -1}
+	ba := &Pipe{Name: nameB + ">" + nameA, s: s, FlipAt: -1}
 	ab.apply(cfgAB)
 	ba.apply(cfgBA)
 	a := &Conn{s: s, Name: nameA, rd: ba, wr: ab}
@@ -307,6 +310,10 @@ func (c *Conn) Write(b []byte) (int, error) {
 		d := make([]byte, n)
 		for i := 0; i < n; i++ {
 			d[i] = b[off+i]
+		}
+		if p.FlipAt >= 0 && p.FlipMask != 0 && p.FlipAt >= p.BytesW && p.FlipAt < p.BytesW+int64(n) {
+			d[p.FlipAt-p.BytesW] ^= p.FlipMask
+			p.Flipped = true
 		}
 		lat := p.Latency
 		if p.Jitter > 0 && (first || p.SegPol != SegWhole) {
